@@ -63,6 +63,17 @@ PROPS["C18"] = dict(
     dict(name="file-struct", entries=["harness_struct"], shards={"quick": [{0: FM_TET, 1: 0}], "thorough": [{0: FM_TET, 1: 0}, {0: FM_TET, 1: 1}, {0: FM_TETP, 1: 0}]},
          bounds=_FILES + "forbidden chunk sequences: TET: EOF dropped / duplicated / not last / first, EDGES|FACES|CELLS dropped, VERT|EDGES|FACES|CELLS duplicated, FACES before "
                 "EDGES, CELLS before FACES (13 cases); TETP: second DIRP, DIRP dropped, PROP before DIRP, EOF before PROP, EOF dropped (5 cases)", **_C18F),
+    # ---- writer side: "a write failure while saving produces an error result, never Ok" (real IO::ovmb_write on the ostream model; needs the
+    #      OVM_VERIF hook in BinaryFileWriter.hh that replaces the 100 MB preallocation of the chunk buffer by 64 bytes)
+    dict(name="file-write-ok", harness="C18_write.cpp", entries=["harness_write_ok"], shards=[{0: FM_EMPTY}, {0: FM_TET}, {0: FM_TETP}], timeout=600,
+         bounds="the real writer, executed symbolically on a working stream, returns Ok and produces byte for byte (symbolic probe offset) the file the natively run writer produced for "
+                "EMPTY / TET / TETP (also validates the encoding of the writer)", **FILE_JOB),
+    dict(name="file-write-fault", harness="C18_write.cpp", entries=["harness_write_fault"], timeout={"quick": 600, "thorough": 1800},
+         shards={"quick": [{0: FM_EMPTY, 1: 0}] + [{0: FM_TET, 1: b} for b in range(4)], "thorough": [{0: FM_EMPTY, 1: 0}] + [{0: FM_TET, 1: b} for b in range(4)] + [{0: FM_TETP, 1: b} for b in range(5)]},
+         bounds="IO::ovmb_write of EMPTY / TET (thorough: + TETP) on an output stream that stores nothing and turns bad from byte offset P on, P enumerated by a symbolic selector (8 per query) over: "
+                "file header bytes 0, 1, 47 and, for every chunk incl. the end-of-file chunk, its first and second byte, last chunk-header byte, first payload byte and last byte; result must not be Ok", **FILE_JOB),
+    dict(name="file-write-fault-sym", harness="C18_write.cpp", entries=["harness_write_fault_sym"], shards=[{0: FM_EMPTY}], timeout=1800, tiers=["thorough"],
+         bounds="IO::ovmb_write of EMPTY with the fault offset P a FREE symbolic value in 0..63 (every offset of the 64-byte file)", **FILE_JOB),
   ] + globals().get("C18_UNIT_JOBS", []),
   assumptions=[
     "stream model: std::istream::read/tellg/seekg(off,dir)/seekg(pos) (the only members the reader calls, never the stream state) operate on a harness-owned byte buffer "
@@ -71,7 +82,9 @@ PROPS["C18"] = dict(
     "g_default_property_codecs (static initialiser of IO/PropertyCodecs.cc) is not encoded (30 codecs x 7 entity kinds = 2077 virtual-call targets: CBMC out of memory at 10 GB)",
     "truncation length, fault offset, substituted (offset,value) and chunk sequence are enumerated through a symbolic selector (every value in the stated range is a case); a free symbolic "
     "replacement byte / length gave no verdict (path merging turns container shapes symbolic: 600 s timeout for 8 cases on the 64-byte file)",
-    "outside the bound: files of other meshes (hexahedra, several cells, more properties, split spans, U16/U32 handle encodings), substitution values other than the 5 boundary values per byte, "
-    "the writer side (ostream faults)",
+    "outside the bound: files of other meshes (hexahedra, several cells, more properties, split spans, U16/U32 handle encodings), substitution values other than the 5 boundary values per byte; "
+    "writer side: fault offsets other than the enumerated ones for TET/TETP (every offset only for EMPTY, thorough tier)",
+    "ostream model (models/stream_model.cpp): std::ostream::write appends to a harness-owned buffer; from byte offset P on it stores nothing and sets badbit (what a full disk / closed pipe does); "
+    "ostream::good() is the real inline libstdc++ code reading that state",
   ],
 )
